@@ -1,6 +1,6 @@
 (* C14 — stores round-trip unchanged through a canonical format cargo-vet itself accepts. *)
-Require Import Base Extracted Serde.
-Require Import SerdeProofs.
+Require Import Base Extracted Serde SerdePolicy.
+Require Import SerdeProofs SerdePolicyProofs.
 Local Open Scope N_scope.
 
 (* cargo-vet's own layer on top of the TOML value: every entry is read back as the
@@ -14,6 +14,15 @@ Theorem C14_exemption_roundtrip : forall x, dec_exemption (enc_exemption x) = So
 Proof. exact exemption_roundtrip. Qed.
 Theorem C14_wildcard_entry_roundtrip : forall w, dec_wildcard (enc_wildcard w) = Some w.
 Proof. exact wildcard_roundtrip. Qed.
+(* a policy entry: `criteria` / `dev-criteria` keep "absent" apart from "present and empty" (string_or_vec_or_none),
+   `dependency-criteria` is written only when non-empty; every entry reads back as itself *)
+Theorem C14_policy_entry_roundtrip : forall p, dec_policy (enc_policy p) = Some p.
+Proof. exact policy_roundtrip. Qed.
+Example C14_empty_policy_list_is_not_absent :
+  enc_policy {| pe_audit_as := None; pe_criteria := Some []; pe_dev_criteria := None; pe_dep_criteria := []; pe_notes := None |}
+  <> enc_policy {| pe_audit_as := None; pe_criteria := None; pe_dev_criteria := None; pe_dep_criteria := []; pe_notes := None |}.
+Proof. exact empty_list_is_not_absent. Qed.
+
 Theorem C14_criteria_entry_roundtrip : forall c, dec_criteria (enc_criteria c) = Some c.
 Proof. exact criteria_roundtrip. Qed.
 
@@ -53,6 +62,7 @@ Print Assumptions C14_audit_entry_roundtrip.
 Print Assumptions C14_exemption_roundtrip.
 Print Assumptions C14_wildcard_entry_roundtrip.
 Print Assumptions C14_criteria_entry_roundtrip.
+Print Assumptions C14_policy_entry_roundtrip.
 Print Assumptions C14_tidy_is_canonical.
 Print Assumptions C14_policy_key_roundtrip.
 Print Assumptions C14_policy_keys_never_collide.
